@@ -24,6 +24,8 @@ func checkC10(c *Ctx) {
 	c.Rule("R10.2", "marshaler failures become '<key>Error'; no encoder/marshaler error dropped", 15)
 	c.Rule("R10.3", "output stays well-formed on failure: closers on the error path; reflected value encoded before any write", 12)
 	c.Rule("R10.4", "all cores, all sinks, all errors: exhaustive loops folding errors; aggregate reported; sink error returned", 9)
+	c.Rule("R10.11", "the in-memory encoders (MapObjectEncoder, its array encoder) keep what a nested marshaler produced before it failed: every path of a method that runs a marshaler stores the nested value into the receiver", 4)
+	c10MemoryKeepsPartial(c, "R10.11")
 	c.Rule("R10.6", "Config.Build: the caller's options take effect after the configuration's (a caller-supplied ErrorOutput is the one write failures are reported on)", 1)
 	c10BuildOptionOrder(c, "R10.6")
 	c.Rule("R10.5", "the logger's error output is threaded into every entry that will be written", 1)
@@ -1121,4 +1123,100 @@ func c10NoErrorOverwrittenInLoop(c *Ctx, rule string) {
 		}
 	})
 	c.Check(n >= 0, rule, "loops carrying an error", "scanned", token.NoPos, "%d loop-carried error variables examined in the library: none is overwritten by a later round without a test that leaves the loop or a combination with the earlier value", n)
+}
+
+// c10MemoryKeepsPartial: in every method of the in-memory encoders that invokes MarshalLogArray/MarshalLogObject, no
+// path from the entry to a return avoids the store of the nested value into the receiver (a map update, or a store to
+// a field of the receiver).
+func c10MemoryKeepsPartial(c *Ctx, rule string) {
+	n := 0
+	for _, f := range coreFuncs(c) {
+		rn := RecvNamed(f)
+		if rn == nil || len(f.Blocks) == 0 || len(f.Params) == 0 {
+			continue
+		}
+		if tn := TNm(rn.Obj()); tn != "MapObjectEncoder" && tn != "sliceArrayEncoder" {
+			continue
+		}
+		marshals := false
+		for _, cl := range Calls(f) {
+			cc := cl.Common()
+			if cc.IsInvoke() && (cc.Method.Name() == "MarshalLogArray" || cc.Method.Name() == "MarshalLogObject") {
+				marshals = true
+			}
+		}
+		if !marshals {
+			continue
+		}
+		n++
+		escape := !c10StoresOnEveryPath(f, 0)
+		c.Check(!escape, rule, FStr(f), "nested-value-stored-on-every-path", f.Pos(), "no path from the entry to a return avoids storing the nested value into the receiver: a marshaler that fails half-way leaves what it had produced")
+	}
+	if n < 4 {
+		c.Bad(rule, "in-memory encoder methods that run a marshaler", "count", token.NoPos, "expected at least 4, found %d", n)
+	}
+}
+
+// c10StoresOnEveryPath: no path from f's entry to a return avoids a store into f's receiver (a map update, a store to
+// a field of the receiver, or a call of a method on the receiver that itself stores on every path).
+func c10StoresOnEveryPath(f *ssa.Function, depth int) bool {
+	if f == nil || len(f.Blocks) == 0 || len(f.Params) == 0 || depth > 3 {
+		return false
+	}
+	recv := f.Params[0]
+	fromRecv := func(v ssa.Value) bool {
+		for i := 0; i < 6 && v != nil; i++ {
+			switch x := Strip(v).(type) {
+			case *ssa.Parameter:
+				return x == recv
+			case *ssa.FieldAddr:
+				v = x.X
+			case *ssa.Field:
+				v = x.X
+			case *ssa.UnOp:
+				v = x.X
+			default:
+				return false
+			}
+		}
+		return false
+	}
+	stores := map[*ssa.BasicBlock]bool{}
+	for _, b := range f.Blocks {
+		for _, in := range b.Instrs {
+			switch x := in.(type) {
+			case *ssa.MapUpdate:
+				if fromRecv(x.Map) {
+					stores[b] = true
+				}
+			case *ssa.Store:
+				if _, isF := Strip(x.Addr).(*ssa.FieldAddr); isF && fromRecv(x.Addr) {
+					stores[b] = true
+				}
+			case *ssa.Call:
+				if sc := StaticCallee(x); sc != nil && sc != f && sc.Signature.Recv() != nil && len(x.Call.Args) > 0 && fromRecv(x.Call.Args[0]) && curProgRoot(sc) && c10StoresOnEveryPath(sc, depth+1) {
+					stores[b] = true
+				}
+			}
+		}
+	}
+	seen := map[*ssa.BasicBlock]bool{}
+	escape := false
+	var walk func(b *ssa.BasicBlock)
+	walk = func(b *ssa.BasicBlock) {
+		if seen[b] || stores[b] {
+			return
+		}
+		seen[b] = true
+		if len(b.Instrs) > 0 {
+			if _, isRet := b.Instrs[len(b.Instrs)-1].(*ssa.Return); isRet {
+				escape = true
+			}
+		}
+		for _, s := range b.Succs {
+			walk(s)
+		}
+	}
+	walk(f.Blocks[0])
+	return !escape
 }
